@@ -10,7 +10,7 @@ FACT_FILES = ['TFacts', 'ExcFacts', 'RegFacts', 'MutFacts', 'c11']
 READY = True
 MANIFEST = dict(
     text="Lean 4 theorems about an executable model of Assign.__init__/glomit, _assign_op, _apply_for_each and the `assign` registry op on a heap with object identity: for every heap (sharing, cycles), target, wildcard-free destination of any length, value and `missing` factory the model's outcome IS the plain-Python nested assignment (same object returned; result heap equal to `pySet`; every other pre-existing cell untouched; on any failure every pre-existing cell unchanged; with `missing` exactly one factory call per absent segment, the attach is the last and only write to a pre-existing cell); put-get under the hypothesis the proof forces (counter-example kept); wildcard destinations assign at every match in order. Facts obligation by `decide` on the branch table of _assign_op regenerated from /repo; model tied to the code by differential execution (full heap snapshot, exception class chain, factory call count).",
-    note="trusted: Lean kernel + {propext, Classical.choice, Quot.sound}; extractor (extract/facts/c11.py); harness/driver; CPython's setitem/setattr/delitem/delattr on dict/list/tuple/set/plain instances and the fault classes of harness/props/mutobjs.py as modelled in Glom/Model/C11.lean (validated by the correspondence only); default registry (C13 covers registration); `**` destinations and container *literals* as values are outside the model (arg-mode rebuilding is C08); two genuine defects of the current tree are recorded as known findings (value rebuilt / S-rooted tail lost when `missing` creates a segment).",
+    note="trusted: Lean kernel + {propext, Classical.choice, Quot.sound}; extractor (extract/facts/c11.py); harness/driver; CPython's setitem/setattr/delitem/delattr on dict/list/tuple/set/plain instances and the fault classes of harness/props/mutobjs.py as modelled in Glom/Model/C11.lean (validated by the correspondence only); default registry (C13 covers registration); `**` destinations and container *literals* as values are outside the model (arg-mode rebuilding is C08); the wildcard theorem covers destinations whose parent exists (a wildcard path that also needs `missing` is covered by the correspondence only).",
     technique='Lean 4 refinement proof (Assign model = plain nested assignment on a heap, frame + atomicity lemmas) + facts obligation by decide + differential correspondence',
     ref='DESIGN.md §3 C11')
 RULE = ('type-directed: a nested target (dict/OrderedDict/dict subclass with __dict__/list/tuple/set/'
@@ -198,45 +198,6 @@ def shrink(case):
     if case.get('scope') is not None and case.get('root') != 'S':
         c = dict(base); c['scope'] = None
         yield c
-
-
-def _steps(case):
-    return M.steps_of_spelling(case['spelling'])
-
-
-def classify(case, verdict):
-    """names of the known findings (KNOWN_FINDINGS.txt) a failing case belongs to"""
-    impl = case.get('impl') or {}
-    if not case.get('missing') or impl.get('calls', 0) == 0:
-        return None
-    if case.get('root') == 'S':
-        return 'missing_s_rooted_tail_lost'
-    # value rebuilt: the assigned value is an exact builtin container reached through T
-    return 'missing_value_rebuilt' if _value_is_builtin_container(case) else None
-
-
-def _value_is_builtin_container(case):
-    v = case['value']
-    if 'lit' in v:
-        return False
-    heap = case['heap']
-    cur = case['target']
-    for op, arg in v['t']:
-        nxt = None
-        for kind, key, child in M.children(heap, cur):
-            if key == arg and ((op == '.') == (kind == 'attr')):
-                nxt = child
-                break
-        if nxt is None:
-            if op == '[' and isinstance(cur, dict) and 'r' in cur and heap[cur['r']]['k'] in ('list', 'tuple') \
-                    and isinstance(arg, dict) and 'i' in arg:
-                items = heap[cur['r']]['v']
-                if -len(items) <= arg['i'] < len(items):
-                    nxt = items[arg['i']]
-            if nxt is None:
-                return False
-        cur = nxt
-    return isinstance(cur, dict) and 'r' in cur and heap[cur['r']]['c'] in ('dict', 'list', 'tuple', 'set', 'frozenset')
 
 
 def focus(disagreements, facts_changed):
